@@ -3,6 +3,7 @@
      R <file> <query>,<query>,...   -> results joined by '|'  (same wire format as the Go harness)
      W <file> <unaligned,blocksize,skipidx,restart,sha256,exact> <min> <max> <refs> <logs>  -> ok | empty | err<code>
      SR <dir> <sha256>              -> ok|<all refs>|<all logs> through the stack's merged table
+     SC <dir> <cfg>                 -> <view>#rc=ok|err#<view>: compact everything through a handle with these options
      SW <dir> <cfg> <op>!<op>...    -> a stack written by the C code (op = A~refs~logs | M~refs%refs... | CA | CE~time~min_update_index): status per op
 */
 #include <stdint.h>
@@ -377,6 +378,63 @@ static void do_stack_read(char *dir, char *sha)
 	reftable_stack_destroy(st);
 }
 
+static void print_view(struct reftable_stack *st, int hs)
+{
+	struct reftable_merged_table *mt = reftable_stack_merged_table(st);
+	struct reftable_iterator it = { 0 };
+	int err;
+	printf("ok|");
+	err = reftable_merged_table_seek_ref(mt, &it, "");
+	if (err < 0)
+		printf("err");
+	else if (err == 0)
+		drain_refs(&it, hs);
+	if (it.ops)
+		reftable_iterator_destroy(&it);
+	memset(&it, 0, sizeof(it));
+	printf("|");
+	err = reftable_merged_table_seek_log(mt, &it, "");
+	if (err < 0)
+		printf("err");
+	else if (err == 0)
+		drain_logs(&it, hs);
+	if (it.ops)
+		reftable_iterator_destroy(&it);
+}
+
+/* SC <dir> <cfg>: open the stack directory with the given options (which may differ from those of
+   the handle that wrote it), print the view, compact everything, print the result and the view again:
+   <view>#rc=<n>#<view> */
+static void do_stack_compact(char *dir, char *cfg)
+{
+	struct reftable_write_options opts = { 0 };
+	struct reftable_stack *st = NULL;
+	char *c[6];
+	int err, hs;
+	if (split(cfg, ',', c, 6) != 6) {
+		printf("badcfg\n");
+		return;
+	}
+	opts.unpadded = atoi(c[0]);
+	opts.block_size = strtoul(c[1], NULL, 10);
+	opts.skip_index_objects = atoi(c[2]);
+	opts.restart_interval = atoi(c[3]);
+	opts.hash_id = atoi(c[4]) ? SHA256_ID : SHA1_ID;
+	opts.exact_log_message = atoi(c[5]);
+	hs = atoi(c[4]) ? 32 : 20;
+	err = reftable_new_stack(&st, dir, opts);
+	if (err < 0) {
+		printf("openerr%d\n", err);
+		return;
+	}
+	print_view(st, hs);
+	err = reftable_stack_compact_all(st, NULL);
+	printf("#rc=%s#", err < 0 ? "err" : "ok");
+	print_view(st, hs);
+	printf("\n");
+	reftable_stack_destroy(st);
+}
+
 struct add_arg {
 	struct reftable_stack *st;
 	char *refs;
@@ -479,6 +537,8 @@ int main(void)
 			do_write(p[1], p[2], p[3], p[4], p[5], p[6]);
 		else if (n == 3 && !strcmp(p[0], "SR"))
 			do_stack_read(p[1], p[2]);
+		else if (n == 3 && !strcmp(p[0], "SC"))
+			do_stack_compact(p[1], p[2]);
 		else if (n == 4 && !strcmp(p[0], "SW"))
 			do_stack_write(p[1], p[2], p[3]);
 		else
